@@ -11,6 +11,7 @@ import (
 	"sort"
 	"strings"
 
+	"github.com/robustirc/robustirc/internal/robust"
 	"github.com/robustirc/robustirc/internal/verifgen"
 	"github.com/robustirc/robustirc/internal/verifview"
 )
@@ -141,6 +142,10 @@ type Monitors struct {
 	ended map[uint64]uint64
 	// whether services introductions with arbitrary nick text occur in this history
 	WildServiceNicks bool
+	// C13: the monitor's own ban table: channel(lc) -> mask -> ban
+	bans map[string]map[string]*modelBan
+	// C13: the configuration as recorded when its entry was applied
+	cfg *verifview.Config
 	// set when the announced-membership model was resynchronised after a divergence
 	resyncs int
 	// ServerName is the network name used as prefix of server-originated lines
@@ -149,7 +154,7 @@ type Monitors struct {
 }
 
 func NewMonitors() *Monitors {
-	return &Monitors{ServerName: "robustirc.net", announced: map[string]map[string]bool{}, ended: map[uint64]uint64{}, Stats: map[string]int{}}
+	return &Monitors{ServerName: "robustirc.net", announced: map[string]map[string]bool{}, bans: map[string]map[string]*modelBan{}, ended: map[uint64]uint64{}, Stats: map[string]int{}}
 }
 
 func (m *Monitors) Step(st *Step) []Finding {
@@ -158,7 +163,10 @@ func (m *Monitors) Step(st *Step) []Finding {
 	fs = append(fs, m.c14(st)...)
 	fs = append(fs, m.c12(st)...)
 	fs = append(fs, m.c13(st)...)
+	m.trackBans(st)
+	m.trackConfig(st)
 	fs = append(fs, m.c17(st)...)
+	fs = append(fs, m.c10(st)...)
 	return fs
 }
 
@@ -352,6 +360,35 @@ func (m *Monitors) c17(st *Step) []Finding {
 		}
 	}
 	return fs
+}
+
+// ---------------------------------------------------------------- C10 (marker)
+
+// c10: after a client line (or an entry skipped as message of death) of a live session was
+// applied, the session's duplicate-detection marker names that entry's client message id.
+func (m *Monitors) c10(st *Step) []Finding {
+	e := &st.Entry
+	if e.Type != int64(robust.IRCFromClient) && e.Type != int64(robust.MessageOfDeath) {
+		return nil
+	}
+	id := verifview.Id{Id: e.Session}
+	if st.Before.SessionById(id) == nil {
+		return nil
+	}
+	a := st.After.SessionById(id)
+	if a == nil {
+		return nil // the session ended with this entry
+	}
+	m.Stats["c10.markers-checked"]++
+	if a.LastClientMessageId != e.ClientMessageId {
+		kind := "client-line"
+		if e.Type == int64(robust.MessageOfDeath) {
+			kind = "message-of-death"
+		}
+		return []Finding{{"C10", "marker-not-recorded:" + kind, fmt.Sprintf("entry %d %.60q of session %d carried client message id %d, the session's marker is %d afterwards: a retry of it would be applied again",
+			e.Id, e.Data, e.Session, e.ClientMessageId, a.LastClientMessageId)}}
+	}
+	return nil
 }
 
 // ---------------------------------------------------------------- helpers shared by C12 / C13
